@@ -1833,7 +1833,7 @@ def fam_aux(E, c):
 # ============================================================================
 SING = ["gesv", "gesv+ipiv", "getrf", "getri", "gbsv", "gbsv+ipiv", "gbtrf", "gtsv", "gttrf", "posv", "potrf",
         "pbsv", "pbtrf", "ptsv", "pttrf", "sysv", "sysv+ipiv", "sytrf", "hesv", "hesv+ipiv", "hetrf",
-        "trtrs", "trtri", "tbtrs", "sygv", "hegv"]
+        "trtrs", "trtri", "tbtrs", "sygv", "hegv", "gels"]
 
 
 def _int_matrix(rng, m, n, tc, lo=-3, hi=3):
@@ -1888,6 +1888,21 @@ def fam_sing(E, c):
         call(c, fname, args, kw, expect=ERR)
         if fname == "gesv" and not withp:
             E.untouched(c, "gesv", "A-modified-without-ipiv", A)
+    elif fname == "gels":
+        # exactly rank-deficient least-squares / least-norm problems: a zero column (m >= n) or a zero row (m < n) puts an
+        # exact zero on the diagonal of the triangular factor; the documented ArithmeticError must be raised
+        # (an entirely zero A is no error for LAPACK: dgels returns X = 0; keep at least one nonzero row)
+        m_ = n + rng.choice([0, 1, 2]) if (rng.random() < 0.6 or n < 3) else n - 1
+        A0 = _int_matrix(rng, m_, n, tc, 1, 4)
+        if m_ >= n:
+            A0[:, j] = 0; how = "zero-column"
+        else:
+            A0[rng.randrange(m_), :] = 0; how = "zero-row"
+        Bs = R.rnd(rng, max(m_, n), nrhs, tc)
+        A, B = Blk(rng, A0, tc, mode, "A"), Blk(rng, Bs, tc, mode, "B")
+        kw = E.dims(mode, m=m_, n=n, nrhs=nrhs); kw.update(A.kw("ldA", "offsetA")); kw.update(B.kw("ldB", "offsetB"))
+        c.desc.update({"how": how, "A": A0})
+        call(c, "gels", [A, B], kw, expect=ERR)
     elif fname == "getri":
         A0 = np.triu(_int_matrix(rng, n, n, tc)) + np.diag(np.arange(1, n + 1))
         A0[j, j] = 0
